@@ -946,7 +946,7 @@ class Acceptor(object):
             gi += 1
             try:
                 raw = m.group(gi)
-                val = None if raw is None else W.convert_value(tok[2], raw, d["matcher"])
+                val = None if raw is None else W.convert_value(tok[2], raw, d["matcher"], W.tok_card(tok))
             except Exception:
                 return None
             if tok[1]:
@@ -962,7 +962,8 @@ class Acceptor(object):
         for tok in d["tokens"]:
             if tok[0] in ("fld", "opt"):
                 gi += 1
-                if tok[0] == "fld" and tok[2] == "Color" and m.group(gi) == "BAD":
+                if tok[0] == "fld" and tok[2] == "Color" and \
+                        "BAD" in [x.strip() for x in (m.group(gi) or "").split(",")]:
                     return True
         return False
 
